@@ -2,12 +2,22 @@
 Model/Compaction — executable model of `cascette-client-storage/src/storage/compaction.rs`
 (`DataSpan`, `validate_spans`, `CompactionFileMover::{new, compact_in_place}`,
 `extract_compact_segment`, `plan_archive_merge`) and of the truncation step of
-`ArchiveManager::compact` (`archive_file.rs`), as the code is written after the two `fix:`
-commits recorded in KNOWN_FINDINGS.txt (first destination cursor; equal-offset sort key).
+`ArchiveManager::compact` (`archive_file.rs`), as the code is written after the four `fix:`
+commits recorded in KNOWN_FINDINGS.txt (first destination cursor; equal-offset sort key; empty
+span list; `checked_add` guard in `validate_spans`).
 
 A file is its byte list. `read_exact` fails when the range reaches past the end; `write_all` at a
-position past the end zero-fills the hole (POSIX). `u64`/`usize` are `Nat`: the theorems carry
-the range hypotheses under which Rust cannot overflow (C18 cfg, assumptions).
+position past the end zero-fills the hole (POSIX).
+
+Two layers for the span code. The `Nat` layer (`validateSpans`, `copyLoop`, `compactLoop`,
+`extractCompact`) computes with unbounded naturals. The `u64` layer (`validateSpansU64`,
+`copyLoopW`, `compactLoopW`, `extractCompactU64`) is the code as compiled: every `u64` addition
+the Rust performs (`DataSpan::end`, `write_pos += length`, `src_pos += chunk`,
+`dest_pos += chunk`) is `addW` (wrapping, what a release build does; a debug build panics exactly
+where `addW` differs from `+`), preceded by the `checked_add` guard. `Proofs/CompactionU64.lean`
+proves that behind the guard no addition ever wraps, i.e. the two layers agree on every input;
+the driver runs the `u64` layer. The planner is on `Nat` with the range hypotheses listed in the
+C18 cfg (assumptions).
 The `f64` utilisation tests are parameters (`isSource`, `utilLow`, `grewALot`): every theorem
 holds for every such function; the driver instantiates them with IEEE doubles.
 -/
@@ -146,17 +156,82 @@ deriving DecidableEq
 
 /-- `extract_compact_segment(file, spans, mover)`. -/
 def extractCompact (m : Mover) (f : Bytes) (spans : List Span) : XcOut :=
-  if spans.isEmpty then ⟨f, some 0⟩
+  match validateSpans spans with
+  | (_, false) => ⟨f, none⟩
+  | (sorted, true) =>
+    let orig := f.length
+    match compactLoop m f sorted 0 with
+    | (f', _, _, false) => ⟨f', none⟩
+    | (f', _, w, true) =>
+      let saved := orig - w
+      if saved > 0 then ⟨setLen f' w, some saved⟩ else ⟨f', some saved⟩
+
+/-! ## the same code with `u64` arithmetic as compiled -/
+
+/-- wrapping `u64` addition. -/
+def addW (a b : Nat) : Nat := (a + b) % 2 ^ 64
+
+/-- `DataSpan::end` as compiled (`self.offset + self.length`, wrapping). -/
+def Span.stopW (s : Span) : Nat := addW s.off s.len
+
+/-- `s.offset.checked_add(s.length).is_none()`. -/
+def Span.overflows (s : Span) : Bool := decide (2 ^ 64 ≤ s.off + s.len)
+
+/-- the adjacent-pair scan with the wrapping `end()`. -/
+def adjacentOkW : List Span → Bool
+  | a :: b :: rest => decide (Span.stopW a ≤ b.off) && adjacentOkW (b :: rest)
+  | _ => true
+
+/-- `validate_spans(&mut spans)` as written: the `checked_add` guard (before the `len() <= 1`
+shortcut and before the sort, so the slice is untouched when it fires), then sort and scan. -/
+def validateSpansU64 (spans : List Span) : List Span × Bool :=
+  if spans.any Span.overflows then (spans, false)
+  else if spans.length ≤ 1 then (spans, true)
   else
-    match validateSpans spans with
-    | (_, false) => ⟨f, none⟩
-    | (sorted, true) =>
-      let orig := f.length
-      match compactLoop m f sorted 0 with
-      | (f', _, _, false) => ⟨f', none⟩
-      | (f', _, w, true) =>
-        let saved := orig - w
-        if saved > 0 then ⟨setLen f' w, some saved⟩ else ⟨f', some saved⟩
+    let s := sortSpans spans
+    (s, adjacentOkW s)
+
+/-- the chunk loop of `compact_in_place` with wrapping `src_pos += chunk; dest_pos += chunk`. -/
+def copyLoopW (buf : Nat) (hbuf : 0 < buf) (f : Bytes) (src dst remaining moved : Nat) :
+    Bytes × Nat × Bool :=
+  if _h : remaining = 0 then (f, moved, true)
+  else
+    let chunk := min remaining buf
+    match readExact f src chunk with
+    | none => (f, moved, false)
+    | some d =>
+      copyLoopW buf hbuf (writeAt f dst d) (addW src chunk) (addW dst chunk) (remaining - chunk)
+        (moved + chunk)
+termination_by remaining
+decreasing_by omega
+
+def compactInPlaceW (m : Mover) (f : Bytes) (src dst len : Nat) : Bytes × Mover × Bool :=
+  if src = dst then (f, m, true)
+  else
+    match copyLoopW m.bufSize m.pos f src dst len m.moved with
+    | (f', mv, ok) => (f', { m with moved := mv }, ok)
+
+/-- the span loop with wrapping `write_pos += span.length`. -/
+def compactLoopW (m : Mover) (f : Bytes) : List Span → Nat → Bytes × Mover × Nat × Bool
+  | [], w => (f, m, w, true)
+  | s :: rest, w =>
+    if s.off > w then
+      match compactInPlaceW m f s.off w s.len with
+      | (f', m', true) => compactLoopW m' f' rest (addW w s.len)
+      | (f', m', false) => (f', m', w, false)
+    else compactLoopW m f rest (addW w s.len)
+
+/-- `extract_compact_segment(file, spans, mover)` as compiled. -/
+def extractCompactU64 (m : Mover) (f : Bytes) (spans : List Span) : XcOut :=
+  match validateSpansU64 spans with
+  | (_, false) => ⟨f, none⟩
+  | (sorted, true) =>
+    let orig := f.length
+    match compactLoopW m f sorted 0 with
+    | (f', _, _, false) => ⟨f', none⟩
+    | (f', _, w, true) =>
+      let saved := orig - w
+      if saved > 0 then ⟨setLen f' w, some saved⟩ else ⟨f', some saved⟩
 
 /-! ## the merge planner -/
 
@@ -230,6 +305,31 @@ def planMerge (isSource : Nat → Bool) (segSize : Nat) (segs : List Seg) : Opti
     match sorted with
     | [] => some {}
     | first :: rest => greedy sorted segSize rest 0 first.2 {}
+
+/-! ## executing a plan
+
+The crate has no executor for `CompactionPlan` (`MoveItem::ekey` is "filled per-entry during
+execution", which does not exist yet). `execPlan` is the obvious one: perform the moves with
+`CompactionFileMover::move_data`, one after the other IN PLAN ORDER, on the segment files. The
+harness runs exactly this loop with the real `move_data` on real files (`exec` request). -/
+
+/-- one `move_data(files[src], src_offset, files[dst], dest_offset, length)`. -/
+def execMove (m : Mover) (files : List Bytes) (mv : Move) : Option (List Bytes × Mover) :=
+  match files[mv.src]?, files[mv.dst]? with
+  | some s, some d =>
+    match moveData m s mv.srcOff d mv.dstOff mv.len with
+    | (d', m', true) => some (files.set mv.dst d', m')
+    | (_, _, false) => none
+  | _, _ => none
+
+/-- all moves, in the order listed. `none` = a segment index outside the population or a failed
+I/O call. -/
+def execPlan (m : Mover) (files : List Bytes) : List Move → Option (List Bytes × Mover)
+  | [] => some (files, m)
+  | mv :: rest =>
+    match execMove m files mv with
+    | some (files', m') => execPlan m' files' rest
+    | none => none
 
 /-! ## `ArchiveManager::compact` (archive_file.rs): truncation to the write position -/
 
